@@ -7,6 +7,20 @@ import SqModel.Generated.NlTable
 
 namespace Sq
 
+/-- `x.trunc()`: the integer part, towards zero -/
+def ratTrunc (q : Rat) : Int := if 0 ≤ q then q.floor else q.ceil
+
+/-- `x as i32` for an `f64` value (saturating, truncating towards zero) -/
+def ratToI32 (q : Rat) : Int := max (-2147483648) (min (ratTrunc q) 2147483647)
+
+/-- `x.abs()` and `x.floor()` on `f64` (the value stays an `f64`) -/
+def ratAbs (q : Rat) : Rat := if q < 0 then -q else q
+def ratFloor (q : Rat) : Rat := (q.floor : Rat)
+
+/-- `x % y` on `f64` (C `fmod`): what is left after taking `y` away a whole number of times towards zero; the sign is the
+    dividend's.  `fmod` is exact in IEEE arithmetic, so for operands that are exact (whole numbers below 2^53) so is this. -/
+def ratFmod (x y : Rat) : Rat := x - y * (ratTrunc (x / y) : Rat)
+
 /-- Rust's `%` on `f64` for an integral left operand: the remainder has the sign of the dividend -/
 def fmodInt (j : Int) (n : Int) : Int := Int.tmod j n
 
@@ -54,8 +68,9 @@ def cprLocation (lat0 lat1 lon0 lon1 : Nat) (cprForm : Nat) (coeff : Int) : Opti
       else (max (Int.tdiv nl0 coeff) 1, Int.tdiv nl0 coeff, lon0)
     let dlngt : Rat := 360 / (ni : Rat)
     let mm : Int := floorHalf (((lon0 : Rat) * ((nlt - 1 : Int) : Rat) - (lon1 : Rat) * (nlt : Rat)) / div)
-    let lon : Rat := dlngt * ((pmod mm ni : Int) + (lngt : Rat) / div)
-    some (if cprForm = 1 then rlat.2 else rlat.1, signedLon lon)
+    -- `m as i32`: the cast saturates; `m` is a small whole number for 17-bit fields (`Proofs/RatPrim.lean`)
+    let lon : Rat := dlngt * ((pmod (ratToI32 (mm : Rat)) ni : Int) + (lngt : Rat) / div)
+    some (if cprForm = 0 then rlat.1 else rlat.2, signedLon lon)
   else none
 
 end Sq
